@@ -164,6 +164,12 @@ func main() {
 		population(fmt.Sprintf("310260%05d", 100000-n-1), 3, n)
 	}
 	population("31026090000", 3, 10000)
+	// 10000 subscribers whose IMSI values straddle a multiple of 2^32 (identifiers derived from the IMSI through a 32-bit type wrap there)
+	{
+		lo := uint64(208930000000000)
+		k := (lo>>32 + 700) << 32 // a multiple of 2^32 inside the MSIN range of 208/93
+		population(fmt.Sprintf("%015d", k-5000), 2, 10000)
+	}
 	population("208930042", 2, 3)
 	population("310410998", 3, 2)
 	// every pair of algorithms a context may hold: the advertised capability must be exactly those two (TS 24.501 9.11.3.54)
